@@ -78,6 +78,13 @@ impl Cpu {
         ensures
             final(self).ccr == ccr_with(old(self).ccr, target as u8, val),
             final(self).er@ == old(self).er@ && final(self).rest_eq(old(self)),
+//@ fn change_ccr
+        ensures
+            final(self).ccr == ccr_with(old(self).ccr, target as u8, if onoff { 1u8 } else { 0u8 }),
+            final(self).er@ == old(self).er@ && final(self).rest_eq(old(self)),
+//@ fn read_ccr
+        ensures
+            r == (self.ccr >> (target as u8)) & 1,
 //@ fn divxu_b
         ensures
             // DIVXU.B Rs,Rd : Rd (16 bit) / Rs (8 bit) -> quotient in the low byte, remainder in the high byte
